@@ -76,8 +76,11 @@ def wl_cse(width):
 
 def wl_plain(seed):
     import random
-    spec, meta = wbgen.dag(random.Random(seed), n_cells=5, arrays=False, data_sheet=False,
-                           two_sheets=False, forms=['arith', 'agg', 'if', 'cmp'])
+    for k in range(50):
+        spec, meta = wbgen.dag(random.Random(seed * 1000 + k), n_cells=5, arrays=False, data_sheet=False,
+                               two_sheets=False, forms=['arith', 'agg', 'if', 'cmp'])
+        if len(meta['formulas']) >= 3:
+            break
     return {'name': 'plain', 'spec': spec, 'calls': [('evaluate', a, {}) for a in list(meta['formulas'])[:3]]}
 
 
